@@ -32,6 +32,7 @@ type AppendSpec struct {
 	When  *Expr // optional: the append happened only if this holds in the post-state (e.g. result1 == nil)
 	Src   string
 	Line  int
+	NSrc, WhenSrc string
 }
 
 // CallSiteSpec is an assertion attached to calls of Callee inside the function
@@ -103,6 +104,7 @@ type PureFunc struct {
 
 // GhostFunc is an uninterpreted spec function: //@ ghost func name(a T, b U) R
 type GhostFunc struct {
+	Exec    *Expr // optional executable definition, used by the replay only
 	Name    string
 	Params  []QVar
 	Result  string
@@ -242,9 +244,20 @@ func ParseContractFile(path, pkgPath string) (*ContractFile, error) {
 				continue
 			}
 			rest = strings.TrimSpace(strings.TrimPrefix(rest, "func"))
+			// optional "replay <expr>": how the replay computes the function on concrete values (the
+			// proofs keep it uninterpreted)
+			rest, execSrc, hasExec := strings.Cut(rest, " replay ")
 			name, ps, _ := strings.Cut(rest, "(")
 			ps, res, _ := strings.Cut(ps, ")")
 			gf := &GhostFunc{Name: strings.TrimSpace(name), Result: strings.TrimSpace(res), PkgPath: pkgPath}
+			if hasExec {
+				e, err := ParseSpec(strings.TrimSpace(execSrc))
+				if err != nil {
+					addErr(rc.line, "%v", err)
+				} else {
+					gf.Exec = e
+				}
+			}
 			for _, p := range strings.Split(ps, ",") {
 				p = strings.TrimSpace(p)
 				if p == "" {
@@ -426,8 +439,9 @@ func ParseContractFile(path, pkgPath string) (*ContractFile, error) {
 					addErr(rc.line, "%v", err)
 					continue
 				}
-				cur.Appends = &AppendSpec{Param: strings.TrimSpace(pn), N: e, Src: rest, Line: rc.line}
+				cur.Appends = &AppendSpec{Param: strings.TrimSpace(pn), N: e, Src: rest, Line: rc.line, NSrc: strings.TrimSpace(body), WhenSrc: "true"}
 				if hasWhen {
+					cur.Appends.WhenSrc = strings.TrimSpace(when)
 					w, err := ParseSpec(strings.TrimSpace(when))
 					if err != nil {
 						addErr(rc.line, "%v", err)
